@@ -11,16 +11,17 @@ DEST=/verif/seeded/$ID-$K${SEEDSUF:-}
 [ -f "$OUT/patch.diff" ] || { echo "no patch in $OUT"; exit 2; }
 cd "$WT" && git checkout -q -- . && git clean -qfd
 # place demo files
-DEMOS=(); PKGS=()
-for f in "$OUT"/*; do
+DEMOS=(); PKGS=(); SRCS=()
+for f in "$OUT"/* $(find "$OUT" -mindepth 2 -name '*_test.go'); do
+  [ -d "$f" ] && continue
   b=$(basename "$f")
-  case "$b" in patch.diff|meta.json|run.txt|verify.json) continue;; esac
+  case "$b" in patch.diff|p.diff|meta.json|run.txt|verify.json|*.log) continue;; esac
   if [[ "$b" == *_test.go ]]; then
     pk=$(grep -m1 '^package ' "$f" | awk '{print $2}')
     case "$pk" in render|render_test) d=render;; sdf|sdf_test) d=sdf;; obj|obj_test) d=obj;; dc|dc_test) d=render/dc;; *) d=$pk;; esac
-    cp "$f" "$WT/$d/"; DEMOS+=("$d/$b"); PKGS+=("./$d/")
+    cp "$f" "$WT/$d/"; DEMOS+=("$d/$b"); PKGS+=("./$d/"); SRCS+=("$f")
   elif [[ "$b" == *.go ]]; then
-    mkdir -p "$WT/seeddemo"; cp "$f" "$WT/seeddemo/"; DEMOS+=("seeddemo/$b"); PKGS+=("MAIN")
+    mkdir -p "$WT/seeddemo"; cp "$f" "$WT/seeddemo/"; DEMOS+=("seeddemo/$b"); PKGS+=("MAIN"); SRCS+=("$f")
   else
     cp -r "$f" "$WT/" 2>/dev/null
   fi
@@ -49,7 +50,7 @@ for P in ${PROPS//,/ }; do
   L=$(/verif/tools/mutrun.sh seed-$ID-$K-$P $P "$OUT/patch.diff" quick 2>&1 | grep -E "^== " | cut -c1-400)
   echo "$L"; RES="$RES$L\n"
 done
-mkdir -p "$DEST"; cp "$OUT/patch.diff" "$DEST/"; for d in "${DEMOS[@]}"; do cp "$OUT/$(basename $d)" "$DEST/"; done; cp "$OUT/run.txt" "$DEST/demo_run.txt" 2>/dev/null
+mkdir -p "$DEST"; cp "$OUT/patch.diff" "$DEST/"; for i in "${!SRCS[@]}"; do f=${SRCS[$i]}; rel=${f#$OUT/}; cp "$f" "$DEST/${rel//\//_}"; done; cp "$OUT/run.txt" "$DEST/demo_run.txt" 2>/dev/null
 python3 - "$OUT/meta.json" "$DEST/meta.json" "$ID" "$K" "$D0" "$B" "$S" "$D1" "$RES" <<'PY'
 import json,sys,os
 src,dst,ID,K,D0,B,S,D1,RES=sys.argv[1:10]
